@@ -84,12 +84,13 @@ def _layout_case(case, rng):
     big = case.tier == "thorough" or rng.random() < 0.25
     s, cells, w, h = gen_layout(rng, big)
     fprob = rng.choice([0, 0.3, 0.5, 1])
+    cprob = rng.choice([None, None, 0.5])      # the documented alternative to the default collision handling
     case.family = "layout"
-    case.params = dict(layout=s, fence_success_prob=fprob, w=w, h=h)
+    case.params = dict(layout=s, fence_success_prob=fprob, collision_prob=cprob, w=w, h=h)
     case.count("layouts")
     for k in ("table_products", "table_mixtures", "table_probs_checked", "independent_products"):
         case.count(k, 0)
-    gg = case.call("TabularGridGame", TabularGridGame, s, fence_success_prob=fprob)
+    gg = case.call("TabularGridGame", TabularGridGame, s, fence_success_prob=fprob, collision_prob=cprob)
     if gg is case.FAIL:
         return
     # layout facts in msdm's coordinates
@@ -242,6 +243,8 @@ def _table_case(case, rng):
         rng.shuffle(allrows)
         return allrows[:rng.randint(1, min(4, len(allrows)))]
 
+    deep_rows = []
+
     def mk(paths, rows_flat=None):
         rows_flat = rows_flat or rows_over(paths)
         w = [rng.choice([1, 1, 2, 3]) for _ in rows_flat]
@@ -256,16 +259,52 @@ def _table_case(case, rng):
         if how == "probs":
             t = Pr(rows, probs=probs)
             raw = list(probs)
+            lg = [math.log(x) if x > 0 else -np.inf for x in probs]
         else:
-            t = Pr(rows, logits=[math.log(x) if x > 0 else -np.inf for x in w])
-            raw = [float(x) for x in w]          # the table's weights are exp(score), unnormalised
-        return t, rows_flat, probs, how, raw
+            lg = [math.log(x) if x > 0 else -np.inf for x in w]
+            if mode != "same" and len(w) >= 2 and rng.random() < 0.3:
+                # some rows sit ~200 orders of magnitude below the others (finite logits of about -460): their
+                # probabilities are tiny but not zero, and the product of two such probabilities underflows although the
+                # joined row's logit is finite
+                deep = rng.sample(range(len(w)), rng.randint(1, len(w) - 1))
+                lg = [(l - 460.0 if (i in deep and l > -np.inf) else l) for i, l in enumerate(lg)]
+                deep_rows.append(True)
+            t = Pr(rows, logits=lg)
+            raw = [math.exp(l) if l > -np.inf else 0.0 for l in lg]          # the table's weights are exp(score), unnormalised
+            mx = max(lg)
+            zz = math.fsum(math.exp(l - mx) for l in lg if l > -np.inf) if mx > -np.inf else 0.0
+            probs = [math.exp(l - mx) / zz if l > -np.inf else 0.0 for l in lg] if zz > 0 else probs
+        return t, rows_flat, probs, how, raw, lg
 
-    A, ra, wa, howa, rawa = mk(pa)
+    A, ra, wa, howa, rawa, lga = mk(pa)
     if mode == "same":
-        B, rb, wb, howb, rawb = mk(pb, rows_flat=[dict(r) for r in ra] if rng.random() < 0.5 else None)
+        B, rb, wb, howb, rawb, lgb = mk(pb, rows_flat=[dict(r) for r in ra] if rng.random() < 0.5 else None)
     else:
-        B, rb, wb, howb, rawb = mk(pb)
+        B, rb, wb, howb, rawb, lgb = mk(pb)
+    if mode != "same" and rng.random() < 0.4:
+        # the rows that JOIN are the tiny ones in both tables (each table also has a heavy row that joins nothing): the
+        # whole product then lives 400 orders of magnitude down, where only sums of logits are representable
+        compat = lambda r1, r2: all(r1[p_] == r2[p_] for p_ in r1 if p_ in r2)
+        ma = [any(compat(r1, r2) and l2 > -np.inf for r2, l2 in zip(rb, lgb)) for r1 in ra]
+        mb = [any(compat(r1, r2) and l1 > -np.inf for r1, l1 in zip(ra, lga)) for r2 in rb]
+        if any(ma) and not all(ma) and any(mb) and not all(mb):
+            base_a = [math.log(x) if x > 0 else -np.inf for x in [float(v) for v in rawa]] if not deep_rows else lga
+            lga = [(math.log(rng.choice([1, 2, 3])) - 460.0 if m_ else math.log(rng.choice([1, 2]))) for m_ in ma]
+            lgb = [(math.log(rng.choice([1, 2, 3])) - 460.0 if m_ else math.log(rng.choice([1, 2]))) for m_ in mb]
+
+            def soft(lg_):
+                mx_ = max(lg_)
+                z_ = math.fsum(math.exp(l_ - mx_) for l_ in lg_)
+                return [math.exp(l_ - mx_) / z_ for l_ in lg_]
+            A = Pr([nest(r) for r in ra], logits=lga)
+            B = Pr([nest(r) for r in rb], logits=lgb)
+            wa, wb = soft(lga), soft(lgb)
+            rawa, rawb = [math.exp(l_) for l_ in lga], [math.exp(l_) for l_ in lgb]
+            howa = howb = "logits"
+            deep_rows.append(True)
+            case.count("products_living_400_orders_of_magnitude_down")
+    if deep_rows:
+        case.count("tables_with_rows_200_orders_of_magnitude_down")
     facts = dict(mode=mode, how=(howa, howb))
     case.params = dict(mode=mode, rows=(len(ra), len(rb)), how=(howa, howb))
     case.nontrivial = len(ra) >= 2 or len(rb) >= 2
@@ -289,15 +328,19 @@ def _table_case(case, rng):
     prod = case.call("product", lambda: A & B, facts=facts)
     case.count("table_products")
     if prod is not case.FAIL:
-        ref = {}
-        for r1, w1 in zip(ra, wa):
-            for r2, w2 in zip(rb, wb):
+        # reference in the log domain (the product of two tiny probabilities may underflow, the sum of their logits not)
+        refl = {}
+        for r1, l1 in zip(ra, lga):
+            for r2, l2 in zip(rb, lgb):
                 if all(r1[p] == r2[p] for p in r1 if p in r2):
                     m = dict(r1)
                     m.update(r2)
                     k = tuple(sorted(m.items()))
-                    if w1 * w2 > 0:
-                        ref[k] = ref.get(k, 0.0) + w1 * w2
+                    if l1 > -np.inf and l2 > -np.inf:
+                        refl.setdefault(k, []).append(l1 + l2)
+        mxl = max([l for ls in refl.values() for l in ls], default=-np.inf)
+        ref = {k: math.fsum(math.exp(l - mxl) for l in ls) for k, ls in refl.items()} if mxl > -np.inf else {}
+        ref = {k: v for k, v in ref.items() if v > 0}
         tot = math.fsum(ref.values())
         got = {k: v for k, v in table_dict(prod).items() if v > 0}
         if tot > 0:
@@ -317,6 +360,29 @@ def _table_case(case, rng):
                 want = {tuple(sorted(r.items())): x for r, x in zip(rows, w_) if x > 0}
                 case.check(set(marg) == set(want) and all(abs(marg[k] - want[k]) <= 1e-9 for k in want),
                            "independent-product-is-not-the-product-measure", lambda: f"{marg!r} vs {want!r}", **facts)
+    # ---- a join that lives 400 orders of magnitude down: the rows that match are tiny in BOTH tables (finite logits of
+    # about -460), each table's heavy row matches nothing. Only the ratios of the joined rows matter: the result is w_a*w_b
+    if rng.random() < 0.35:
+        kk = rng.randint(1, 3)
+        va = [rng.choice([1, 2, 3, 7]) for _ in range(kk)]
+        vb = [rng.choice([1, 2, 5]) for _ in range(kk)]
+        extra = rng.random() < 0.5
+        rows_a = [{"j": {"k": i}} for i in range(kk)] + [{"j": {"k": 90}}]
+        rows_b = [({"j": {"k": i}, "z": i % 2} if extra else {"j": {"k": i}}) for i in range(kk)] + \
+                 [({"j": {"k": 91}, "z": 0} if extra else {"j": {"k": 91}})]
+        D = rng.choice([-460.0, -300.0, -700.0])
+        tA = Pr(rows_a, logits=[math.log(v) + D for v in va] + [0.0])
+        tB = Pr(rows_b, logits=[math.log(v) + D for v in vb] + [0.0])
+        pj = case.call("product(deep join)", lambda: tA & tB, facts=dict(depth=D))
+        case.count("deep_joins_checked")
+        if pj is not case.FAIL:
+            tot_ = float(sum(a_ * b_ for a_, b_ in zip(va, vb)))
+            want = {i: va[i] * vb[i] / tot_ for i in range(kk)}
+            got = {}
+            for e, p_ in zip(pj.support, pj.probs):
+                got[e["j"]["k"]] = got.get(e["j"]["k"], 0.0) + float(p_)
+            ok = set(k_ for k_, v_ in got.items() if v_ > 0) == set(want) and all(abs(got.get(k_, 0.0) - v_) <= 1e-9 for k_, v_ in want.items())
+            case.check(ok, "product!=normalised-natural-join", lambda: f"deep join (logit offset {D}): got {got!r} want {want!r}", deep_join=True)
     if mode != "disjoint":
         case.count("independent_products", 0)
     # ---- weighted mixture over the same variables ----------------------------------------------------------
